@@ -7,6 +7,7 @@
    [nz_opt z] = None when z = 0, Some z otherwise. *)
 From BT Require Import Base.Util Model.Merge Model.Fill Model.MergeTool
   Proofs.MergeSig Proofs.MergeInto Proofs.MergeWin Proofs.MergeMany Proofs.FillOk Proofs.MergeToolOk Proofs.MergeToolRun Proofs.MergeManyCode Generated.Consts.
+From BT Require Model.Entry_C15 Proofs.EighthsCodec.
 Local Open Scope N_scope.
 
 (* ------------------------------------------------------------------ merge_into *)
@@ -296,3 +297,12 @@ Example C15_tool_files_example :
     MergeToolFile.mf_out_name =
     Ok (Some (OBedGraph, [([97], mkV 0 4 12%Z); ([97], mkV 4 5 12%Z); ([98], mkV 1 3 8%Z)])).
 Proof. exact MergeToolFile.tool_files_example. Qed.
+
+(* ------------------------------------------------------------------ the interchange codec of the correspondence check *)
+(* Values travel between the harness and the model as f32 bit patterns; the model computes in exact eighths.  On every
+   value whose magnitude fits the 24-bit significand, decoding the encoding gives the value back, so a difference
+   the check reports is a difference of values, never one of the transport. *)
+Theorem C15_value_codec_roundtrip : forall z : Z,
+  (Z.abs z < 2 ^ 24)%Z -> Entry_C15.eighths_of_bits (Entry_C15.bits_of8 z) = Some z.
+Proof. exact EighthsCodec.eighths_codec_roundtrip. Qed.
+Print Assumptions C15_value_codec_roundtrip.
